@@ -24,14 +24,14 @@ ASSUMPTIONS = ["equality with the fresh network: 1e-9 relative (l2) for direct s
                "inputs stay inside the matrix class / shapes of the network; documented memories (Scaling first value, damped AggScaling, writer "
                "counters) are not part of the zoo"]
 FLOORS = {"quick": {"cases_held": 350, "history_ops": 4000, "mon_unseeded_sensitivity": 300, "mon_reset": 5000},
-          "thorough": {"cases_held": 4000, "history_ops": 50000, "mon_unseeded_sensitivity": 4000, "mon_reset": 60000}}
+          "thorough": {"cases_held": 12000, "history_ops": 150000, "mon_unseeded_sensitivity": 12000, "mon_reset": 180000}}
 KINDS = ["compliance", "compliance3d", "cg-ilu", "cg-mg", "dynamic", "eig-sparse", "eig-dense", "soe", "sc-linsolve", "general-const",
          "general-nonsym", "aggregation", "filterconv-overhang", "block-loads", "dense-definiteness"]
 TIMEOUT_CASE = 300
 
 
 def plan(tier, seed):
-    reps = 32 if tier == "quick" else 400
+    reps = 32 if tier == "quick" else 1200
     return [{"kind": k, "r": r} for r in range(reps) for k in KINDS]
 
 
